@@ -13,13 +13,15 @@ use crate::rng::Rng;
 use crate::spec::{self, Item, Kind};
 use crate::trap;
 
-const NAMES: [&str; 6] = ["add", "sub", "getKey", "", "f\u{fc}nf", "lhs"];
+const NAMES: [&str; 12] = ["add", "sub", "getKey", "", "f\u{fc}nf", "lhs", "3", "007", "+7", "2024", "18446744073709551615", "1e3"];
 
 fn function(rng: &mut Rng) -> Function {
     match rng.below(5) {
         0 => functions::ADD,
         1 => Function::new_known(*rng.pick(&[0u64, 1, 2, 3, 4, 23, 24, 1000, u64::MAX]), None),
         2 => Function::new_known(rng.below(10) as u64, Some("custom".to_string())),
+        3 => Function::new_static_named(*rng.pick(&["staticFn", "add", "2"])),
+        _ if rng.chance(1, 4) => Function::new_with_static_name(rng.below(6) as u64, "staticKnown"),
         _ => Function::new_named(*rng.pick(&NAMES[..])),
     }
 }
@@ -29,6 +31,7 @@ fn parameter(rng: &mut Rng) -> Parameter {
         0 => parameters::LHS,
         1 => parameters::RHS,
         2 => Parameter::new_known(*rng.pick(&[0u64, 1, 2, 3, 99, u64::MAX]), None),
+        3 => Parameter::new_static_named(*rng.pick(&["staticParam", "lhs", "7"])),
         _ => Parameter::new_named(*rng.pick(&NAMES[..])),
     }
 }
@@ -128,6 +131,14 @@ pub fn run(ctx: &mut Ctx) {
             let p = if !params.is_empty() && rng.chance(1, 4) { rng.pick(&params).clone() } else { parameter(&mut rng) };
             let v = value(&mut rng, case);
             reference = reference.add_assertion(Envelope::new(p.clone()), v.clone());
+            // a named parameter may also be given as a plain &str (which must mean exactly that name)
+            let as_str: Option<String> = (if matches!(p, Parameter::Named(_)) { let n = p.name(); Some(n[1..n.len() - 1].to_string()) } else { None }).filter(|_| rng.chance(1, 2));
+            if let Some(name) = &as_str {
+                ctx.count("parameters_given_as_str");
+                expr = expr.with_parameter(name.as_str(), v);
+                params.push(p);
+                continue;
+            }
             expr = match rng.below(4) {
                 0 => expr.with_optional_parameter(p.clone(), Some(v)),
                 1 => expr.with_optional_parameter(parameter(&mut rng), None::<Envelope>).with_parameter(p.clone(), v),
